@@ -133,7 +133,7 @@ func (r *Report) finish(e *Engine, units []*UnitResult, obls []*Obligation, verb
 		// known finding?
 		for _, k := range known {
 			if k.prop == r.Prop && k.obligation == name {
-				lines = append(lines, fmt.Sprintf("KNOWN-FINDING: property=%s %s", r.Prop, k.text))
+				lines = append(lines, "KNOWN-FINDING: "+k.text)
 				return
 			}
 		}
@@ -149,6 +149,12 @@ func (r *Report) finish(e *Engine, units []*UnitResult, obls []*Obligation, verb
 		data, _ := json.MarshalIndent(rp, "", " ")
 		os.WriteFile(file, data, 0o644)
 		lines = append(lines, fmt.Sprintf("VIOLATION property=%s replay=%s no-failing-input-found", r.Prop, file))
+	}
+	for _, k := range known {
+		// findings established outside the generated obligations (replay tests under /verif/findings): always listed
+		if k.prop == r.Prop && strings.HasPrefix(k.obligation, "external:") {
+			lines = append(lines, "KNOWN-FINDING: "+k.text)
+		}
 	}
 	for i, o := range failed {
 		if verbose && i < 12 {
